@@ -22,7 +22,7 @@
 (*          used: the horizon the solver ended up with - conformance only, the property  *)
 (*          is judged against the STATED horizon; must: the replayed behaviour has a     *)
 (*          successful solve here)                                                        *)
-(*   Render fmt, ok, header, rows, cells, names, lens, kinds  (holder before the call)   *)
+(*   Render fmt, ok, header, rows, cells, inexact, names, lens, kinds  (holder before)   *)
 (*   End                                                                                 *)
 (* The events of one trace may come in any order and number: every Render is judged      *)
 (* against the holder observed at that moment.                                           *)
@@ -50,11 +50,15 @@ Obs(e) ==
         LET i == CHOOSE i \in 1..Len(e.names) : e.names[i] = n
         IN [len |-> e.lens[i], kind |-> e.kinds[i]]]
 
+(* cells[i][j]: the text parses back to the stored value within the precision of the format;      *)
+(* inexact: the number of cells whose text is NOT that stored value rendered with the requested   *)
+(* format (format % value), counted by the driver over the same grid                              *)
 CellsTrue(e) ==
     /\ Len(e.cells) = e.rows
     /\ \A i \in 1..Len(e.cells) :
          /\ Len(e.cells[i]) = Len(e.header)
          /\ \A j \in 1..Len(e.cells[i]) : e.cells[i][j]
+    /\ e.inexact = 0
 
 JudgeRender(e) ==
     LET H == Obs(e) IN
